@@ -678,6 +678,16 @@ func (ls *LState) findLocal(frame *callFrame, no int) string {
 	return ""
 }
 
+// currentPc returns the index of the instruction a Lua frame is executing. A frame that is
+// still being set up (the reused frame of a tail call, the first frame of a coroutine) has
+// not executed anything yet: errors raised at that point are attributed to its first instruction.
+func currentPc(cf *callFrame) int {
+	if cf.Pc < 1 {
+		return 0
+	}
+	return cf.Pc - 1
+}
+
 func (ls *LState) where(level int, skipg bool) string {
 	dbg, ok := ls.GetStack(level)
 	if !ok {
@@ -693,7 +703,7 @@ func (ls *LState) where(level int, skipg bool) string {
 	}
 	line := ""
 	if proto != nil {
-		line = fmt.Sprintf("%v:", proto.DbgSourcePositions[cf.Pc-1])
+		line = fmt.Sprintf("%v:", proto.DbgSourcePositions[currentPc(cf)])
 	}
 	return fmt.Sprintf("%v:%v", sourcename, line)
 }
@@ -1567,7 +1577,7 @@ func (ls *LState) GetInfo(what string, dbg *Debug, fn LValue) (LValue, error) {
 		case 'l':
 			if !f.IsG && dbg.frame != nil {
 				if dbg.frame.Pc > 0 {
-					dbg.CurrentLine = f.Proto.DbgSourcePositions[dbg.frame.Pc-1]
+					dbg.CurrentLine = f.Proto.DbgSourcePositions[currentPc(dbg.frame)]
 				}
 			} else {
 				dbg.CurrentLine = -1
